@@ -55,6 +55,12 @@ def run_traces(ctx, name, drv_args, timeout=1500, sub="req"):
            "reprepare_fail_forwards": False, "retry_same_spins": False}
     v = core.validate_trace(ctx, "TraceRequestObs", events, cfg, name=name)
     v["events"] = events
+    v["cfg"] = cfg
+    if v["bad"]:
+        # keep the raw trace of a run with violations next to the replay artefacts
+        os.makedirs(os.path.join(core.EVIDENCE, "replay"), exist_ok=True)
+        import shutil
+        shutil.copy(raw, os.path.join(core.EVIDENCE, "replay", "%s-raw-%s-%d.ndjson" % (ctx.prop, name, ctx.seed)))
     os.remove(raw)
     return v, st, reqinfo, rawev
 
@@ -103,6 +109,42 @@ def design_check(ctx, thorough):
         ctx.notes["design_model_sensitivity"] = sens
         if sens["closing_holds_lock"] != "deadlock" or sens["retry_same_sticks"] != "temporal":
             raise core.Inconclusive("design model lost its sensitivity to the known hazards: %s" % sens)
+
+
+def binding_selftest(ctx, events, cfg):
+    """Corrupts a validated trace in three ways and requires TraceRequestObs to flag each (the specification really
+    constrains the recorded events).  Returns the result dict recorded in the evidence."""
+    first = []
+    for e in events:
+        first.append(e)
+        if e["ev"] == "Quiet":
+            break
+    res = {}
+    # 1. a second response for one request
+    i = next((k for k, e in enumerate(first) if e["ev"] == "Reply"), None)
+    # 2. an answer delivered with another request's token
+    oks = [k for k, e in enumerate(first) if e["ev"] == "Reply" and e["kind"] == "ok" and e.get("t")]
+    # 3. a reply without the backend answer that justifies it
+    ans = next((k for k, e in enumerate(first) if e["ev"] == "Answer" and e["o"] == "ok"), None)
+    variants = {}
+    if i is not None:
+        variants["duplicate-reply"] = (first[:i + 1] + [first[i]] + first[i + 1:], "C01")
+    if len(oks) >= 2:
+        v = [dict(e) for e in first]
+        v[oks[0]]["t"], v[oks[0]]["tr"] = first[oks[1]]["t"], first[oks[1]].get("tr", 0)
+        variants["swapped-answer"] = (v, "C02")
+    if ans is not None:
+        variants["answer-removed"] = (first[:ans] + first[ans + 1:], None)
+    for name, (evs, want) in variants.items():
+        try:
+            v = core.validate_trace(ctx, "TraceRequestObs", evs, cfg, name="selftest-" + name)
+            tags = sorted({b["p"] for b in v["bad"]})
+        except core.Inconclusive:
+            tags = ["REJECTED"]
+        res[name] = tags
+        if not tags or (want and want not in tags):
+            raise core.Inconclusive("binding self-test: corrupted trace '%s' was not flagged as expected (%s)" % (name, tags))
+    return res
 
 
 def model_check(ctx, thorough):
@@ -159,6 +201,8 @@ def run_property(ctx, own, plans, scenario_filter=None, nscen=700, extra_cov=Non
         others += report(ctx, v, reqinfo, own, v["events"], tag=tag)
         if not samples:
             samples = [e for e in v["events"] if e["ev"] != "GC"][:30]
+            if not v["bad"]:
+                ctx.notes["binding_selftest"] = binding_selftest(ctx, v["events"], v["cfg"])
     ctx.assumptions += [
         "fake backend outcomes are concrete frames of each outcome class; the starting host of a plan is inferred from the first attempt",
         "hook events (send failures, close notifications) only justify skipping a host that the harness knows to have lost a connection",
